@@ -33,6 +33,11 @@ TEMPLATES = [
     # -- extended vocabulary (only generated / enumerated by the properties that ask for it: `ext`)
     "def {n}(x): return {a}(x) + {c}.{r}",      # calls a cells AND reads a reference by attribute path
     "def {n}(x): return {a}(x) + {r}",          # calls a cells AND reads a reference by name
+    # partial formulas: the evaluation FAILS for exactly one of the query arguments (k % 3) and succeeds for the
+    # others, so that failing evaluations (rolled back) are interleaved with successful ones in every history;
+    # the error is one template 8 (a caller that catches) handles
+    "def {n}(x):\n    if x == {k} % 3:\n        raise TypeError('outside the domain')\n    return {a}(x) + {k}",
+    "def {n}(x):\n    if x == {k} % 3:\n        raise TypeError('outside the domain')\n    return {r} + x",
 ]
 N_BASE_TEMPLATES = 11
 
@@ -67,7 +72,7 @@ def formula_src(name, t):
 
 
 NEEDS = [set(), {"a"}, {"r"}, {"c", "cr"}, {"c", "ca"}, {"a"}, {"r"}, {"u"}, {"a"}, {"ro"}, {"ci"},
-         {"a", "c", "cr"}, {"a", "r"}]
+         {"a", "c", "cr"}, {"a", "r"}, {"a"}, {"r"}]
 
 
 def gen_formula(rng, spaces, space=None, ext=False):
